@@ -9,7 +9,8 @@ import unicodedata
 from .common import FormulaCheck
 from .. import hx
 
-ALPHA = ('abcXYZ019 ,.;:!?-_()[]{}\'"#%&*+/<=>@\\^|~`$' + '\t\n\r\x00\x01\x1f\x7f' + 'àéîõüçñÀÉÎÕÜÇÑ' + '你好世界日本語')
+ALPHA = ('abcXYZ019 ,.;:!?-_()[]{}\'"#%&*+/<=>@\\^|~`$' + '\t\n\r\x00\x01\x1f\x7f' + 'àéîõüçñÀÉÎÕÜÇÑ' + '你好世界日本語' +
+         '\U00020000\U00020bb7\U0002a6d6')      # CJK letters beyond the Basic Multilingual Plane: one character each, two UTF-16 units
 
 
 def rs(rnd, n=None, maxlen=60):
@@ -44,7 +45,7 @@ class Check(FormulaCheck):
     ID = 'C15'
     TITLE = 'Text functions satisfy the string algebra they document'
     TECHNIQUE = 'boundary recorder on Parser.parse; identities evaluated as formulas; index-arithmetic / occurrence-scan / join models'
-    RULE = ('case = one formula over a seeded string (length 0-60 over ASCII letters, digits, punctuation, spaces, control characters, accented and CJK letters) '
+    RULE = ('case = one formula over a seeded string (length 0-60 over ASCII letters, digits, punctuation, spaces, control characters, accented and CJK letters incl. three beyond U+FFFF) '
             'with counts 0..len+5 and negatives, (old,new,k) with non-self-overlapping old, item lists with blanks (flat and nested). '
             'non-trivial = result compared with the model; distinct = distinct (function/identity, arguments).')
     ASSUMPTIONS = ('characters whose case mapping changes length are outside the alphabet; counts are integers',
@@ -98,7 +99,7 @@ class Check(FormulaCheck):
         self.expect('C15/MID', g == s[a - 1:a - 1 + k], s=s, start=a, count=k, got=g)
         t2 = rs(rnd, maxlen=20)
         la, lb, lab = self.ev('LEN(v_a)', v_a=s), self.ev('LEN(v_b)', v_b=t2), self.ev('LEN(v_a&v_b)', v_a=s, v_b=t2)
-        self.expect('C15/LEN', la == len(s) and lb == len(t2), s=s, got=la)
+        self.expect('C15/LEN', la == len(s) and lb == len(t2), a=s, b=t2, got=(la, lb), expected=(len(s), len(t2)))
         self.expect('C15/LEN(a&b)=LEN(a)+LEN(b)', lab == len(s) + len(t2), a=s, b=t2, got=lab)
         if '"' not in s and rnd.random() < 0.3:
             g = self.ev('LEN(%s)' % hx.strlit(s))
